@@ -115,22 +115,71 @@ def run(repo: Repo, chk: Check):
         exp_k -= 1
     except NotLinear:
         exp, exp_k = None, None
+    def canon(e, nd):
+        """Replace the recognised spellings of 'number of line ends' by the atom LINE_ENDS:
+        max(num_lines - 1, 0), max(0, num_lines - 1), s.count('\\n'), (num_lines - 1 if num_lines else 0)."""
+        class T(ast.NodeTransformer):
+            def visit_Call(self_, c):
+                self_.generic_visit(c)
+                if norm(c.func) == "max" and len(c.args) == 2:
+                    for a, b in ((c.args[0], c.args[1]), (c.args[1], c.args[0])):
+                        if isinstance(b, ast.Constant) and b.value == 0:
+                            try:
+                                if lin(a, resolver(nd)) == (exp_c, exp_k_lines - 1):
+                                    return ast.Name(id="LINE_ENDS", ctx=ast.Load())
+                            except NotLinear:
+                                pass
+                if norm(c) in (f"{sname}.count('\\n')",):
+                    return ast.Name(id="LINE_ENDS", ctx=ast.Load())
+                return c
+
+            def visit_IfExp(self_, c):
+                self_.generic_visit(c)
+                try:
+                    if isinstance(c.orelse, ast.Constant) and c.orelse.value == 0 and lin(c.body, resolver(nd)) == (exp_c, exp_k_lines - 1) \
+                            and lin(c.test, resolver(nd))[0] == exp_c:
+                        return ast.Name(id="LINE_ENDS", ctx=ast.Load())
+                except NotLinear:
+                    pass
+                return c
+        import copy as _copy
+        return T().visit(_copy.deepcopy(e))
+
+    try:
+        exp_c, exp_k_lines = lin(nl_expr, resolver(nl_node))
+    except NotLinear:
+        exp_c, exp_k_lines = None, 0
+    good = ({f"len({sname})": 1, "LINE_ENDS": 1}, 0)
     for i, alt in enumerate(alts):
         desc = " + ".join(norm(e) for e, _ in alt)
         try:
             tot, k = {}, 0
             for e, nd in alt:
-                c1, k1 = lin(e, resolver(nd))
+                c1, k1 = lin(canon(e, nd), lambda nm, _r=resolver(nd): None if nm.id == "LINE_ENDS" else _r(nm))
                 for a, v in c1.items():
                     tot[a] = tot.get(a, 0) + v
                 k += k1
             tot = {a: v for a, v in tot.items() if v != 0}
-            ok = (tot, k) == (exp, exp_k)
             got = (tot, k)
+            ok = got == good
+            unclamped = (tot, k) == (exp, exp_k)
         except NotLinear:
-            ok, got = False, None
+            ok, got, unclamped = False, None, False
+        if unclamped:
+            # len(s) + num_lines - 1 : right for every non-empty result, -1 for the empty one — unless a guard excludes it
+            nid0 = alt[0][1]
+            guarded = False
+            from ..linnorm import compare_upper_bound
+            for tst, pol in cfg.guards(nid0):
+                if isinstance(tst, ast.expr):
+                    ub = compare_upper_bound(tst, pol, resolver(nid0))
+                    if ub and exp_c is not None and ub[0] == {a: -v for a, v in exp_c.items()} and ub[1] <= -1 + exp_k_lines:
+                        guarded = True
+            ok = guarded
         chk.judge("R17.b", f"generate_code:get_code:num_bytes formula [{desc}]", ok and ok_form,
-                  f"num_bytes = {desc} does not normalise to len({sname}) + num_lines - 1 (got {got})", {"normal_form": got}, where)
+                  (f"num_bytes = {desc} charges 'num_lines - 1' line ends also for an empty result (0 lines): it reports -1 bytes" if unclamped else
+                   f"num_bytes = {desc} does not normalise to len({sname}) + <number of line ends> (max(num_lines - 1, 0) or {sname}.count('\\n')); got {got}"),
+                  {"normal_form": got}, where)
         fresh = all(same_s(nd) for e, nd in alt if sname in {x.id for x in ast.walk(e) if isinstance(x, ast.Name)} or
                     any(isinstance(x, ast.Name) and x.id != sname and single_def(x.id, nd) is not None for x in ast.walk(e)))
         chk.judge("R17.a", f"generate_code:get_code:num_bytes uses the final string [{desc}]", fresh,
